@@ -1351,12 +1351,13 @@ impl UndoOperation for SwitchToFontPage {
 #[derive(Default)]
 pub struct SetFont {
     font_page: usize,
-    old: BitFont,
+    /// the font slot `font_page` held before (`None`: the slot was empty)
+    old: Option<BitFont>,
     new: BitFont,
 }
 
 impl SetFont {
-    pub fn new(font_page: usize, old: BitFont, new: BitFont) -> Self {
+    pub fn new(font_page: usize, old: Option<BitFont>, new: BitFont) -> Self {
         Self { font_page, old, new }
     }
 }
@@ -1367,7 +1368,11 @@ impl UndoOperation for SetFont {
     }
 
     fn undo(&mut self, edit_state: &mut EditState) -> EngineResult<()> {
-        edit_state.get_buffer_mut().set_font(self.font_page, self.old.clone());
+        if let Some(old) = &self.old {
+            edit_state.get_buffer_mut().set_font(self.font_page, old.clone());
+        } else {
+            edit_state.get_buffer_mut().remove_font(self.font_page);
+        }
         Ok(())
     }
 
